@@ -191,6 +191,14 @@ func Run(r *ev.Run, tier, self, harnessDir, scratch string) (states, transitions
 			refs[j.sc] = results[i]
 		}
 	}
+	// a scenario that compares two replays inside one process reports its verdict as a trace line
+	for sc, t := range refs {
+		for _, l := range t {
+			if strings.HasPrefix(l, "teleport_process_history DIFFERS") {
+				r.Violation("C14:result-depends-on-process-history/"+sc, l, map[string]interface{}{"engine": "c14", "scenario": sc, "env": ref.String(), "line": l})
+			}
+		}
+	}
 	distinct := map[string]bool{}
 	for i, j := range jobs {
 		want := refs[j.sc]
